@@ -90,6 +90,7 @@ func (its *ordaMap) Put(key string, value interface{}) (interface{}, errors.Orda
 }
 
 func (its *ordaMap) Get(key string) interface{} {
+	defer its.readLock()()
 	return its.snapshot().get(key)
 }
 
@@ -101,7 +102,14 @@ func (its *ordaMap) Remove(key string) (interface{}, errors.OrdaError) {
 	return its.SentenceInTx(its.TxCtx, op, true)
 }
 
+// ToJSON returns the live entries of the map.
+func (its *ordaMap) ToJSON() interface{} {
+	defer its.readLock()()
+	return its.snapshot().ToJSON()
+}
+
 func (its *ordaMap) Size() int {
+	defer its.readLock()()
 	return its.snapshot().size()
 }
 
